@@ -1,6 +1,6 @@
 """C20 - whitespace normalisation, TEXT half (CrossHair harness). The XSLT half runs inside libxslt and is not decided."""
 from metapype.model.normalize import normalize
-from harness.hlib import fresh, bound
+from harness.hlib import fresh, bound, affix
 
 MAXLEN = bound(4)
 ALPHA = "ab \t\n\u00a0\u2003"     # two letters, space, TAB, LF, NBSP, EM SPACE (a Unicode space that is not U+0020)
@@ -34,6 +34,7 @@ def h_text(s: str) -> str:
     pre: len(s) <= MAXLEN and in_alpha(s)
     post: _ == ""
     """
+    s = affix(s)
     try:
         r = normalize(s)
     except Exception as e:
